@@ -15,7 +15,10 @@ var scriptForms = []string{"<script>%s</script>", "<SCRIPT>%s</SCRIPT>", "<ScRiP
 	"<xmp><script>%s</script></xmp>", "<textarea><script>%s</script></textarea>", "<!--<script>%s</script>-->", "<a title=\"<script>%s</script>\">t</a>", "<scrİpt>%s</scrİpt>", "</script>%s", "<script src=x>%s</script>",
 	"<script\n>%s</script\t>", "<b><style>%s</b></style>", "<title><style>%s</style></title>", "<script>%s</style></script>", "<noscript><script>%s</script></noscript>", "<iframe><script>%s</script></iframe>",
 	"<plaintext><script>%s</script>", "<script id=a/>%s</script>", "<STYLE/>%s</STYLE>", "<ſcript>%s</ſcript>", "<script x=\">\">%s</script>", "<svg><style/>%s</style></svg>", "<script>%s</scrip>x</script>",
-	"<script><!--%s--></script>", "<style><![CDATA[%s]]></style>", "<div><script defer>%s</script ></div>", "<script\x00>%s</script>", "<script/x>%s</script>", "<style>%s</style/>", "<object><script>%s</script></object>"}
+	"<script><!--%s--></script>", "<style><![CDATA[%s]]></style>", "<div><script defer>%s</script ></div>", "<script\x00>%s</script>", "<script/x>%s</script>", "<style>%s</style/>", "<object><script>%s</script></object>",
+	// raw-text element NAMES where a tree builder has no raw text: inside foreign content and inside select
+	"<svg><xmp><script>%s</script></xmp></svg>", "<math><textarea><style>%s</style></textarea></math>", "<select><xmp><script>%s</script></xmp></select>", "<svg><title><script>%s</script></title></svg>",
+	"<math><mtext><xmp><script>%s</script></xmp></mtext></math>", "<svg><noembed><style>%s</style></noembed>", "<svg><desc><textarea><script>%s</script></textarea></desc></svg>"}
 
 // fragments that drive the tokenizer through the script data (double) escaped states
 var scriptStateFrags = []string{"<!--", "-->", "<script>", "<script ", "<SCRIPT>", "</script>", "</script ", "</SCRIPT>", "<0", "<", "<<", "--", "-", ">", "x", "<scriptx>", "</scriptx>", "<!-", "<!", "</", "<a>", "a<b", " ", "<script/", "</script/"}
@@ -168,6 +171,50 @@ func checkC05(c *Case, r *Rec) error {
 					continue
 				}
 				return violation(out, "C05(3): text %s lies inside the leading script element as the HTML standard delimits it (its end tag begins at offset %d of the content; the tokenizer in use ends it at %d) but appears in the output", mk, stdEnd, xnetEnd)
+			}
+		}
+	}
+	// (4) the same for every script / style element of the tree a browser builds from the INPUT (the
+	// tokenizer is context-free: inside svg, math and select the names xmp, title, textarea, ... do
+	// not start raw text for a tree builder, what follows them is markup)
+	tokenizerBodies := ""
+	for i, tk := range its {
+		if isOpenTag(tk) && (tk.Name == "script" || tk.Name == "style") && i+1 < len(its) && its[i+1].Type == html.TextToken {
+			tokenizerBodies += its[i+1].Name + "\x00"
+		}
+	}
+	for _, ctx := range []string{"body", "div"} {
+		nodes, perr := parseIn(in, ctx, true)
+		if perr != nil {
+			continue
+		}
+		for _, root := range nodes {
+			var verr error
+			walk(root, func(x *html.Node) {
+				if verr != nil || x.Type != html.ElementNode {
+					return
+				}
+				if n := asciiLower(x.Data); n != "script" && n != "style" {
+					return
+				}
+				walk(x, func(y *html.Node) {
+					if verr != nil || y.Type != html.TextNode {
+						return
+					}
+					for _, mk := range markersIn(y.Data) {
+						if !strings.Contains(out, mk) && !strings.Contains(decodedOut, mk) {
+							continue
+						}
+						if c.Kind != "strict-replay" && !strings.Contains(tokenizerBodies, mk) && knownClassEnabled("C05", "raw_text_element_name_where_a_tree_builder_has_markup") {
+							r.Excluded("raw_text_element_name_where_a_tree_builder_has_markup")
+							continue
+						}
+						verr = violation(out, "C05(4): text %s lies inside a <%s> element of the tree built from the input (context <%s>) but appears in the output", mk, x.Data, ctx)
+					}
+				})
+			})
+			if verr != nil {
+				return verr
 			}
 		}
 	}
